@@ -553,6 +553,61 @@ func runC06(c *core.Ctx) core.Meta {
 			}
 		}
 	}
+	// lane-parametric helpers: a helper that reads / writes operands at a lane given by one of
+	// its parameters must be called, inside a lane loop, with that loop's own lane
+	stHelp := c.Rule("R06.helper", "helpers that access operands at a lane passed as a parameter (address helpers, SDWA/modifier helpers) are called inside lane loops with the loop's own lane index", 10)
+	for _, rel := range []string{emuPkg, cdna3Pkg} {
+		laneParam := map[*ssa.Function]int{}
+		for _, fn := range c.SrcFuncs(rel) {
+			for _, e := range collectEffects(fn) {
+				if e.lane == nil {
+					continue
+				}
+				if prm, ok := core.StripConv(e.lane).(*ssa.Parameter); ok {
+					for i, q := range fn.Params {
+						if q == prm {
+							laneParam[fn] = i
+						}
+					}
+				}
+			}
+		}
+		for _, fn := range c.SrcFuncs(rel) {
+			if _, isExc := crossLaneExceptions[core.FuncName(fn)]; isExc {
+				continue
+			}
+			for _, b := range fn.Blocks {
+				for _, in := range b.Instrs {
+					call, ok := in.(*ssa.Call)
+					if !ok || call.Call.StaticCallee() == nil {
+						continue
+					}
+					idx, isHelper := laneParam[call.Call.StaticCallee()]
+					if !isHelper || idx >= len(call.Call.Args) {
+						continue
+					}
+					arg := call.Call.Args[idx]
+					phi := ivOf(arg)
+					if _, isParam := core.StripConv(arg).(*ssa.Parameter); isParam {
+						continue // forwarded by another helper; judged at its own call sites
+					}
+					stHelp.Instances++
+					ok2 := false
+					if phi != nil {
+						l := analyseLoop(phi)
+						ok2 = l.okForm && l.bound == 64 && inLoop(l, b)
+					}
+					stHelp.Ob(ok2)
+					if ok2 {
+						stHelp.Sample("%s: %s(…, lane=i, …)", core.FuncName(fn), call.Call.StaticCallee().Name())
+					} else {
+						c.ReportAt("R06.helper", fn, in.Pos(), "helper-lane:"+call.Call.StaticCallee().Name(), "helper "+call.Call.StaticCallee().Name()+" accesses operands at lane "+prov.Of(arg)+", which is not the enclosing lane loop's own index")
+					}
+				}
+			}
+		}
+	}
+
 	for name, why := range crossLaneExceptions {
 		if !excUsed[name] {
 			c.Notes = append(c.Notes, "exception entry not exercised: "+name)
